@@ -5,6 +5,7 @@
 //   rd_driver render <list.txt> <out.ndjson>    additionally calls every string() renderer (outcome only)
 #include "common.h"
 #include "records.h"
+#include <chrono>
 
 using namespace CDNS;
 
@@ -54,7 +55,21 @@ int main(int argc, char** argv)
         if (path.empty()) continue;
         std::string bytes = vh::read_file(path);
         vh::set_context(json{{"file", path}, {"size", bytes.size()}});
-        json ev = {{"e", "RD"}, {"file", path.substr(path.find_last_of('/') + 1)}, {"size", bytes.size()}};
+        std::string name = path.substr(path.find_last_of('/') + 1);
+        json ev = {{"e", "RD"}, {"file", name}, {"size", bytes.size()}};
+        if (mode == "safety") {
+            // C03: both entry points, outcome class and time only
+            for (const char* entry : {"reader+accessors", "renderers"}) {
+                vh::set_context(json{{"entry", entry}, {"input", name}});
+                auto t0 = std::chrono::steady_clock::now();
+                json r = std::string(entry) == "renderers" ? render_all(bytes) : vr::reader_dump(bytes);
+                auto ms = std::chrono::duration_cast<std::chrono::milliseconds>(std::chrono::steady_clock::now() - t0).count();
+                std::string fin = r["fin"];
+                vh::trace().emit({{"e", "X"}, {"entry", entry}, {"input", name}, {"outcome", fin == "eof" ? "ok" : fin},
+                                  {"ms", ms}, {"size", bytes.size()}});
+            }
+            continue;
+        }
         if (mode == "render") ev["rn"] = render_all(bytes);
         else ev["rd"] = vr::reader_dump(bytes);
         vh::trace().emit(ev);
